@@ -15,7 +15,7 @@ E1_NOTE = "Trusted: the harness's reference model and canonical key (DESIGN.md a
 NOT_APPLICABLE = {}
 
 ENGINES = [
-    {'name': 'seqx', 'path': 'engine/mc.h', 'serves_properties': ['C01', 'C02', 'C03', 'C04', 'C07', 'C08', 'C12', 'C09', 'C10', 'C13', 'C15', 'C19'], 'kind_free_text': 'explicit-state breadth-first closure search over the real library code; state = operation history replayed on fresh objects, deduplicated by a canonical serialisation of the real data structure; reference model + oracles on every transition'},
+    {'name': 'seqx', 'path': 'engine/mc.h', 'serves_properties': ['C01', 'C02', 'C03', 'C04', 'C07', 'C08', 'C12', 'C09', 'C10', 'C13', 'C14', 'C15', 'C19'], 'kind_free_text': 'explicit-state breadth-first closure search over the real library code; state = operation history replayed on fresh objects, deduplicated by a canonical serialisation of the real data structure; reference model + oracles on every transition'},
 ]
 
 PROPS = {
@@ -142,6 +142,15 @@ PROPS = {
         'jobs': [{'world': 'string', 'src': 'worlds/string_world.c', 'lib': ['string.c', 'vector.c', 'array.c', 'memory.c'], 'flavours': RELDBG_ALWAYS},
                  {'world': 'wstring', 'src': 'worlds/string_world.c', 'wflags': ['-DWIDE'], 'lib': ['string.c', 'vector.c', 'array.c', 'memory.c'], 'flavours': RELDBG_ALWAYS}],
         'rule': 'breadth-first search to closure; a state is non-trivial when string A holds at least two characters',
+        'assumptions': ASSUME_E1,
+    },
+    'C14': {
+        'level': 'model_checking',
+        'claim': 'Exhaustive within scope: closure over alloc (0..4 elements, unrepresentable and refused counts) / set (two external buffers) / slice (into another object and in place, bounds from {0,1,2,len-1,len,len+1,nm,nm+1,nm-off,nm-off+1,SIZE_MAX-1,SIZE_MAX,SIZE_MAX-off+1}) / unslice / reset / release on three array objects; every state audited with at() at {0,len-1,len,SIZE_MAX} against base+(off+i)*sz inside the buffer, and with allocation accounting (two live blocks per referenced buffer, no double/foreign free).',
+        'note': E1_NOTE + ' Open cases accepted either way: slice(0,0) of an object without buffer, and a range past the object\'s own length but inside the buffer.',
+        'technique': 'explicit-state BFS to closure on the real code vs view/buffer reference model + allocation accounting',
+        'jobs': [{'world': 'array', 'src': 'worlds/array_world.c', 'lib': ['array.c', 'memory.c'], 'flavours': RELDBG_ALWAYS}],
+        'rule': 'breadth-first search to closure; a state is non-trivial when some object is a view with a non-zero offset',
         'assumptions': ASSUME_E1,
     },
 }
